@@ -281,6 +281,26 @@ func (propC02) Gen(r *Rng, run uint64, tier string) *Plan {
 	return p
 }
 
+// c02Foreign returns a label of got that the origin container does not have: not one of
+// its reference labels, not the line (msg), not produced by the plan's pipeline suffix,
+// and not empty. Lines carry the labels of the container that produced them - and not
+// those of another container, or of one read by an earlier evaluation.
+func c02Foreign(got, ref map[string]string, suffix string) (string, bool) {
+	if strings.Contains(suffix, "logfmt") {
+		return "", false // fields of the line become labels: not modelled here
+	}
+	for _, k := range sortedKeys(got) {
+		if _, ok := ref[k]; ok || k == "msg" || got[k] == "" {
+			continue
+		}
+		if k == "extra" && strings.Contains(suffix, "label_format extra=") {
+			continue
+		}
+		return k, true
+	}
+	return "", false
+}
+
 // c02Suffixes are pipelines that neither drop a line nor touch its text or its
 // container labels: the selection, the window and the origin of every line
 // must be what they are without them.
@@ -592,6 +612,10 @@ func c02Judge(p *Plan, o *Outcome, st *Stats, ms, msB []Matcher, kind string, rn
 							fmt.Sprintf("%s=%q (stream %s)", k, s.Labels[k], clip(s.Key, 300)))
 					}
 				}
+				if k, bad := c02Foreign(s.Labels, ref, p.Tags["suffix"]); bad {
+					return viol("C02(d:origin)", fmt.Sprintf("line %q of container %s carries the labels of that container only", clip(e.V, 40), c.ID),
+						fmt.Sprintf("it also carries %s=%q, which the container does not have (stream %s)", k, s.Labels[k], clip(s.Key, 300)))
+				}
 				checked++
 			}
 		}
@@ -625,6 +649,10 @@ func c02Judge(p *Plan, o *Outcome, st *Stats, ms, msB []Matcher, kind string, rn
 					return viol("C02(d:origin)", fmt.Sprintf("the series of line %q of container %s carries %s=%q", clip(s.Labels["msg"], 40), c.ID, k, ref[k]),
 						fmt.Sprintf("%s=%q (series %s)", k, s.Labels[k], clip(s.Key, 300)))
 				}
+			}
+			if k, bad := c02Foreign(s.Labels, ref, p.Tags["suffix"]); bad && kind != "metric_binop" {
+				return viol("C02(d:origin)", fmt.Sprintf("the series of line %q of container %s carries the labels of that container only", clip(s.Labels["msg"], 40), c.ID),
+					fmt.Sprintf("it also carries %s=%q, which the container does not have (series %s)", k, s.Labels[k], clip(s.Key, 300)))
 			}
 			checked++
 		}
